@@ -332,6 +332,17 @@ func runHarness(ld *Loaded, cfg Config, pkg *ssa.Package, fn *ssa.Function, work
 				mu.Unlock()
 
 				res := e.runPath(pkg, fn, it.prefix)
+				if res.Outcome == "engine-error" && strings.Contains(res.Reason, "engine crash in") {
+					// A path is a deterministic function of its decision prefix: a
+					// crash inside the engine that does not repeat on a second run
+					// of the same prefix was transient (it is counted and reported);
+					// one that repeats is an engine error.
+					first := res.Reason
+					res = e.runPath(pkg, fn, it.prefix)
+					mu.Lock()
+					hr.Stubs["engine: path re-run after a crash that did not repeat ("+first+")"]++
+					mu.Unlock()
+				}
 
 				mu.Lock()
 				active--
